@@ -33,6 +33,12 @@ func GenFunc(prog *Prog, fn *ssa.Function, fc *FuncContract) *VC {
 		name := "|" + p.Name() + "@in|"
 		vc.emit(fmt.Sprintf("(declare-const %s %s)", name, enc.sortOf(p.Type())))
 		vc.assume(enc.wellFormed(name, p.Type(), st0.wm))
+		if forceBounded > 0 {
+			if _, isSl := p.Type().Underlying().(*types.Slice); isSl {
+				// bounded exploration: small inputs make model finding with quantified preconditions feasible
+				vc.assume(fmt.Sprintf("(and (<= (s.len %s) %d) (= (s.off %s) 0))", name, forceBounded, name))
+			}
+		}
 		fr.params = append(fr.params, Val{T: name, Typ: p.Type()})
 	}
 	for _, fv := range fn.FreeVars {
@@ -111,6 +117,7 @@ func GenFunc(prog *Prog, fn *ssa.Function, fc *FuncContract) *VC {
 
 // lazyPre: assert-only prelude blocks and the symbol whose use makes them relevant.
 var lazyPre = map[string]string{
+	"strjoin.ax": "strjoin", "fmtnum.strconv.FormatInt.ax": "fmtnum.strconv.FormatInt", "fmtnum.strconv.FormatUint.ax": "fmtnum.strconv.FormatUint",
 	"u2i8.ax": "2i8|i2bv8", "u2i16.ax": "2i16|i2bv16", "u2i32.ax": "2i32|i2bv32", "u2i64.ax": "2i64|i2bv64",
 	"strax":     "strlen",
 	"strlt.ax":  "strlt",
